@@ -82,9 +82,16 @@ Logged ==
   \/ IsEvent("tok.acq.ok") /\ AcqOk(Ev.p) /\ avail'[Ev.p] = Ev.available
   \/ IsEvent("tok.rel.lock") /\ RelLockRecount(Ev.p, Ev.job)
   \/ IsEvent("tok.rel.ok") /\ RelOk(Ev.p) /\ avail'[Ev.p] = Ev.available
+  (* the release found its file gone: the recount (which has no event of its own: tok.rel.lock is logged before it) came after
+     the deletion, so it is placed here -- nobody else creates or removes a written token file while the ipc lock is held,
+     except reclaim threads *)
   \/ IsEvent("tok.rel.missing") /\ cs' = [cs EXCEPT ![Ev.p] = None] /\ ipc' = "free" /\ ~Present(Ev.job)
         /\ jobst' = [jobst EXCEPT ![Ev.job] = "released"]
-        /\ UNCHANGED <<files, alive, obs, avail, cache, watching, pend, dstat, notify, reclaiming, wl, info>>
+        /\ avail' = [avail EXCEPT ![Ev.p] = info.total - Sum({k \in OnDisk : files[k] = "written"})]
+        /\ info' = [info EXCEPT !.ptotal[Ev.p] = info.total]
+        /\ cache' = [cache EXCEPT ![Ev.p] = {k \in OnDisk : files[k] = "written"}]
+        /\ watching' = [watching EXCEPT ![Ev.p] = @ \cup ({k \in OnDisk : files[k] = "written"} \ cache[Ev.p])]
+        /\ UNCHANGED <<files, alive, obs, pend, dstat, notify, reclaiming, wl>>
   \/ IsEvent("tok.file.delete") /\ (IF cs[Ev.p].kind = "rel" /\ cs[Ev.p].job = Ev.job THEN RelDelete(Ev.p) ELSE ReclaimDelete(Ev.p, Ev.job))
   \/ IsEvent("tok.watch.start") /\ Stutter      \* (the thread may announce itself before the handler that started it reports)
   \/ IsEvent("tok.watch.reclaim") /\ ReclaimDecide(Ev.p, Ev.job)
